@@ -91,7 +91,8 @@ theorem Big.rehigh {m : Mode} {r : Id} {ph : Phase} {s : State} {low high high' 
       have := hl' x hx
       rw [beq_iff_eq.mp hq, keepName_template] at this; cases this
   have hcore : Core { s with openElems := (r :: low1) ++ high', activeFormatting := af' } r (low1 ++ high') ph := by
-    refine ⟨hl, rfl, hc.rdoc, hnd, htg, haf, ?_, hc.tmm, hc.form, hc.rtu, hc.rnd, hc.kids, hc.elems, ?_⟩
+    refine ⟨hl, rfl, hc.rdoc, hnd, htg, haf, ?_, hc.tmm, hc.form, hc.rtu, hc.rnd, hc.kids, hc.elems, ?_,
+      Afx.of_elems hc.elems hbb.notPf⟩
     · show tcount s.dom ((r :: low1) ++ high') ≤ _
       refine Nat.le_trans (Nat.le_of_eq ?_) hc.tc
       rw [hst]
@@ -102,6 +103,7 @@ theorem Big.rehigh {m : Mode} {r : Id} {ph : Phase} {s : State} {low high high' 
       | nil =>
         have : y ∈ high' := List.mem_of_mem_tail hy
         have hk := (hd' y this).1
+        refine bh_of4 ?_
         cases hq : htmlIn (nm s.dom y) ["html", "body", "head", "frameset"] with
         | false => rfl
         | true => rw [keepName_of_htmlIn hq (by decide)] at hk; cases hk
@@ -110,6 +112,7 @@ theorem Big.rehigh {m : Mode} {r : Id} {ph : Phase} {s : State} {low high high' 
         rcases List.mem_append.mp hy' with h1 | h1
         · exact hc.bh y (by rw [hup]; exact List.mem_append_left _ h1)
         · have hk := (hd' y h1).1
+          refine bh_of4 ?_
           cases hq : htmlIn (nm s.dom y) ["html", "body", "head", "frameset"] with
           | false => rfl
           | true => rw [keepName_of_htmlIn hq (by decide)] at hk; cases hk
@@ -344,7 +347,7 @@ theorem Big.high {m : Mode} {r : Id} {ph : Phase} {s : State} {below above : Lis
   · have htg := hc.tg
     rw [hst] at htg
     refine tg_above above _ x htg hx (fun y hy => ?_)
-    refine htmlIn_split5 (hab y hy) (hc.bh y ?_)
+    refine htmlIn_split5 (hab y hy) (hc.bh4 hbb.notPf y ?_)
     have : up = (a :: b2) ++ x :: above := by
       rw [hc.stack] at hst
       simp only [List.cons_append, List.cons.injEq, true_and] at hst
